@@ -540,11 +540,12 @@ fn write_tilemap_cel_to_image(
                 for pixel_x in 0..tile_width {
                     let pixel_idx = ((pixel_y * tile_width) + pixel_x) as usize;
                     let image_pixel = tile_pixels[pixel_idx];
-                    let image_x = (tile_x * tile_width) + pixel_x + cel_x;
-                    let image_y = (tile_y * tile_height) + pixel_y + cel_y;
+                    // Note: tile index times tile size can exceed the range of i32.
+                    let image_x = (tile_x as i64 * tile_width as i64) + (pixel_x + cel_x) as i64;
+                    let image_y = (tile_y as i64 * tile_height as i64) + (pixel_y + cel_y) as i64;
                     // Skip pixels off of the canvas.
-                    let x_in_bounds = (0..(image.width() as i32)).contains(&image_x);
-                    let y_in_bounds = (0..(image.height() as i32)).contains(&image_y);
+                    let x_in_bounds = (0..(image.width() as i64)).contains(&image_x);
+                    let y_in_bounds = (0..(image.height() as i64)).contains(&image_y);
                     if x_in_bounds && y_in_bounds {
                         let image_x = image_x as u32;
                         let image_y = image_y as u32;
